@@ -45,6 +45,9 @@ def stages(tier, rng, only=None):
            ac.stage("runs3x2", PID, lambda: _runs(grids.datasets(3, 2)), _nt_run),
            ac.stage("sparse", PID, lambda: _runs([ac.sparse_dataset(rng, 5) for _ in range(250 if tier == "quick" else 2500)],
                                                  1, 3), _nt_run)]
+    out.append(Stage("split_votes_fractional", "Trace_Part", partrun.run_partitions,
+                     lambda: _cases([ac.split_votes(rng, ties=k % 3 == 2) for k in range(250 if tier == "quick" else 2500)],
+                                    ac.FRACTIONAL, False), _nt_part, partrun.init, aux=aux))
     out.append(ac.stage("cycles", PID, lambda: _runs(
         [ac.cyclic_dataset(rng, 3, 5, incomplete=k % 2 == 1) for k in range(100 if tier == "quick" else 1000)]
         + [ac.two_cycles(rng) for _ in range(12 if tier == "quick" else 100)]
